@@ -158,7 +158,7 @@ def shard_include(shard):
     def flush():
         cases = []
         for main, files, path in buf:
-            pre = ['wipe', 'mkdir ' + enc(b'sp'), 'mkdir ' + enc(b'sp2')] + ['mkfile %s %s' % (enc(n), enc(c)) for n, c in files.items()]
+            pre = ['wipe', 'mkdir ' + enc(b'sp'), 'mkdir ' + enc(b'sp2'), 'mkdir ' + enc(b'adir')] + ['mkfile %s %s' % (enc(n), enc(c)) for n, c in files.items()]
             if path in ('decoy', 'decoy-only'):
                 pre.append('mkdir ' + enc(b'sp/a.conf'))          # a directory of the wanted name in the directory searched first
             lines = pre + ['init A %s %d' % (sid, flags), 'cb_quiet 1']
@@ -186,6 +186,10 @@ def shard_include(shard):
             buf.append((b'include("a.conf")', {b'sp/a.conf': T}, True))
             buf.append((b'include("a.conf")', {b'sp2/a.conf': T}, 'decoy'))
             buf.append((T + b' include("a.conf")', {}, 'decoy-only'))
+            # a directory, a missing name, a name given twice - named directly, no search path: whatever was opened is closed
+            buf.append((T + b' include("adir")', {}, False))
+            buf.append((b'sec { include("adir") } ' + T, {}, False))
+            buf.append((T + b' include("nope.conf")', {}, False))
             buf.append((b'include("a.conf") ' + T, {b'a.conf': b'm { include("b.conf") }', b'b.conf': b'x = 2'}, False))
             # sections entered from one source and re-entered from another (their file name string changes hands)
             buf.append((b'sec { x = 2 } include("a.conf") sec { x = 3 }', {b'a.conf': T}, False))
